@@ -28,6 +28,8 @@ def main():
     seed = int(os.environ.get('VERIF_SEED', '0') or 0)
     from lib.check import Ctx
     from lib.tlc import TLCError
+    from lib import replay
+    replay.start_workers()          # fork the replay workers while this process is small
     mod = importlib.import_module('checks.%s' % a.pid.lower())
     ctx = Ctx(a.pid, a.tier, seed)
     try:
